@@ -20,7 +20,12 @@
 // Function values (declared functions, closures with their captured
 // variables) are called like static callees; a package-level variable that is
 // assigned once by its package initialiser and only ever read (a table of
-// patterns, offsets, parser functions) evaluates to its initialiser.
+// patterns, offsets, parser functions) evaluates to its initialiser. A call
+// through an interface whose dynamic value the run knows is the call of that
+// type's method (hashmodel.go: invoke); hash.Hash values created by the
+// crypto/* constructors are modelled as the byte sequence written into them
+// (hashmodel.go), their digests being supplied by the rule (Interp.Digest) or
+// kept as fresh symbolic sources.
 package absint
 
 import (
